@@ -217,9 +217,26 @@ func init() {
 		ID: "C12",
 		Gen: func(t *rapid.T, tier string) *world.Plan {
 			// hostile responder (maker or taker) with hostile premiums / fee invoices, or two real nodes with odd rates
-			mode := rapid.IntRange(0, 3).Draw(t, "mode")
+			mode := rapid.IntRange(0, 4).Draw(t, "mode")
 			var p *world.Plan
 			switch mode {
+			case 4:
+				// honest pair; the maker's wallet daemon loses the acknowledgement of the opening
+				// broadcast or refuses it once: what is locked must stay the agreed amount, once
+				p = genPlan(t, genOpts{sched: true, premiums: true, duration: []int{300}, realLWallet: 100, adapters: 80, clnAdapters: 80, layouts: true})
+				if len(p.Ops) > 0 {
+					op := p.Ops[0]
+					maker := op.Node
+					if op.Kind == "swapout" {
+						maker = 1 - op.Node
+					}
+					site := "lwallet.open"
+					if op.Chain == "btc" {
+						site = pick(t, "wtsite", []string{"btcwallet.open", "btcwallet.publish"})
+					}
+					p.Faults = []world.Fault{{Node: maker, Site: site, Occ: 1, Kind: pick(t, "wtkind", []string{"errafter", "errafter", "reject26"}), N: 1}}
+				}
+				return p
 			case 3:
 				// two swaps in a row on one node with its real Lightning adapter: first it funds an
 				// opening transaction that costs much more than its flat estimate (a wallet of many
@@ -256,7 +273,10 @@ func init() {
 				p.AdvCfg = &world.AdvCfg{Role: "taker", Chain: p.Ops[0].Chain, Amount: p.Ops[0].Amount, PayClaim: rapid.Bool().Draw(t, "payclaim"),
 					Premium: pick(t, "prem", []int64{0, 1, 100, 1000, 5000, 50000, -1, -100000, -1000001, 1 << 62, -(1 << 62)})}
 			default:
-				p = genPlan(t, genOpts{sched: true, premiums: true, duration: []int{300}})
+				// (with an occasional lost acknowledgement or refusal at the wallet daemon while the
+				// opening is funded and broadcast: what is locked must stay the agreed amount, once)
+				p = genPlan(t, genOpts{sched: true, premiums: true, duration: []int{300}, realLWallet: 70, adapters: 60, clnAdapters: 60, layouts: true,
+					maxFaults: 1, sites: []string{"lwallet.open", "btcwallet.open", "btcwallet.publish"}, faultKinds: []string{"errafter", "errafter", "reject26", "err"}})
 				for i := 0; i < 2; i++ {
 					p.Scn.BtcFeePerKw[i] = pick(t, "feekw", []int64{253, 2500, 25000})
 					p.Scn.LiquidFeeRate[i] = pick(t, "lfee", []int64{100, 1000, 10000})
